@@ -144,6 +144,21 @@ def run(ctx):
             enc_one(ctx, rng, "encode", key, ctr, rb(rng, n))
         if ctx.driver:
             dec_one(ctx, rng, "decode", key, rng.choice([0, 1, 255, 256, 4095, 65535]), rb(rng, n))
+    # payloads with STRUCTURE: what a device really sends inside an encrypted response is a V2 packet (5a5a marker, LE length
+    # field at offset 4); the codec must return the payload untouched whatever that inner length field says
+    if ctx.driver:
+        import msmart.lan as lan
+        for n in list(range(0, 40)) + [64, 100, 200]:
+            inner = lan._Packet.encode(rng.randrange(2 ** 48), rb(rng, n))
+            key = rb(rng, 32)
+            dec_one(ctx, rng, "decode_v2_payload", key, rng.randrange(4096), inner)
+            for lf in (0, 1, 6, 39, 40, len(inner) - 17, len(inner) - 1, len(inner) + 1, 0xFFFF):
+                m = bytearray(inner)
+                m[4:6] = (lf & 0xFFFF).to_bytes(2, "little")
+                dec_one(ctx, rng, "decode_v2_like_payload", key, rng.randrange(4096), bytes(m))
+            dec_one(ctx, rng, "decode_v2_like_payload", key, 0, b"\x5a\x5a" + rb(rng, n))
+            dec_one(ctx, rng, "decode_v2_like_payload", key, 0, b"\x83\x70" + rb(rng, n))
+            enc_one(ctx, rng, "encode_v2_payload", key, rng.randrange(4096), inner)
     for _ in range(8 if not thorough else 100):
         session(ctx, rng, rng.randrange(2, 7))
     if thorough:
